@@ -12,7 +12,11 @@ checks=[]
 for p in props:
     pid=p['id']
     if pid in CLAIMS and os.path.exists(f'/verif/harness/{pid}/spec.json'):
-        c=CLAIMS[pid]
+        c=dict(CLAIMS[pid])
+        # the claim text was written when the first jobs existed; the jobs registered now are listed from the spec
+        spec=json.load(open(f'/verif/harness/{pid}/spec.json'))
+        names=[j['name'] for j in spec['jobs']]
+        c['text']=c['text']+" All jobs registered now (each with its bound in the evidence file and in DESIGN.md 0.2): "+", ".join(names)+"."
         checks.append({"property_id":pid,"quick_cmd":f"bin/check {pid} quick","thorough_cmd":f"bin/check {pid} thorough","evidence_file":f"/verif/evidence/{pid}.json","replay_cmd_template":"cat {path}  # model file; re-run `bin/check "+pid+" quick` to rebuild and replay it natively","engine":"gosx","level_claimed":{"category":("other" if pid=="C10" else "model_checking"),"text":c['text'],"design_ref":c['ref']},"level_note":c['note'],"technique":TECH})
 na=[]
 NA=json.load(open('/verif/tools/not_applicable.json'))
